@@ -1,6 +1,8 @@
 """C13 — drift correction removes exactly the reference-frame motion."""
 from __future__ import annotations
 
+import warnings
+
 import numpy as np
 
 from .. import gen, geom
@@ -156,6 +158,20 @@ def run_unit(unit, rng, ctx):
         ctx.count('further_drift_query_with_another_reference_set')
         return cd
 
+    # a lost atom: a NON-reference atom whose coordinates are NaN in a few frames does not enter the reference drift
+    if unit['i'] % 8 == 3 and (~ref).any() and T >= 4:
+        a_nan = int(rng.choice(np.nonzero(~ref)[0]))
+        t_nan = int(rng.integers(1, T - 1))
+        Un = U.copy()
+        Un[t_nan : t_nan + 2, a_nan] = np.nan
+        trn = gen.make_trajectory(m, sp, Un, time_step=dt, metadata=dict(meta), presentation='plain')
+        with warnings.catch_warnings():
+            warnings.simplefilter('ignore')
+            dn = np.asarray(trn.drift(**kwargs))
+        st_n = np.diff(U, axis=0, prepend=U[:1])
+        dw = st_n[:, ref].mean(axis=1, keepdims=True)
+        ctx.check(dn.shape == dw.shape and bool(np.all(np.isfinite(dn))) and float(np.abs(dn - dw).max()) <= 1e-9, f'{what} [non-reference atom {a_nan} has NaN coordinates in frames {t_nan}-{t_nan + 1}]: drift() of the reference species is not their mean displacement (finite: {bool(np.all(np.isfinite(dn)))})', {'names': names, 'ref': ref})
+        ctx.count('cases_with_a_lost_non_reference_atom(NaN)')
     cd0 = run(U, '')
     # injected rigid, time-dependent translation of all atoms
     gs = rng.uniform(-0.2, 0.2, size=(T, 1, 3))
